@@ -464,3 +464,33 @@ func CallsTo(p *core.Program, target *types.Func) []core.CallSite {
 		return false
 	})
 }
+
+// SiteOwners names the reference function(s) a site found in fd is attributed to when findings are keyed by function:
+// fd itself; for a function the reference tree does not have (a helper extracted since) its single caller; and for a
+// function that absorbed reference functions which are gone (inlined into it, their only caller) those functions.
+// A finding recorded against a function therefore follows its code through an extract-helper or inline refactoring.
+func SiteOwners(p *core.Program, fd *core.FuncDecl) []string {
+	cur := fd
+	for depth := 0; depth < 3 && !p.RefHasFunc(cur.Key()); depth++ {
+		var callers []*core.FuncDecl
+		for _, g := range p.Funcs {
+			if g == cur {
+				continue
+			}
+			for _, callee := range p.CalleesOf(g) {
+				if callee == cur.Obj {
+					callers = append(callers, g)
+					break
+				}
+			}
+		}
+		if len(callers) != 1 {
+			break
+		}
+		cur = callers[0]
+	}
+	if gone := p.VanishedInto(cur.Key()); len(gone) > 0 && cur == fd {
+		return gone
+	}
+	return []string{cur.Key()}
+}
